@@ -1,3 +1,20 @@
+//! Component-level gossipsub checks: C30 C31 C32 C33 C34 C36.
+mod c30;
+mod c31;
+mod c32;
+mod c33;
+mod c34;
+mod c36;
+mod drv;
+mod wire;
+
 fn main() {
-    vcore::runner::main(&[])
+    vcore::runner::main(&[
+        ("C30", c30::run),
+        ("C31", c31::run),
+        ("C32", c32::run),
+        ("C33", c33::run),
+        ("C34", c34::run),
+        ("C36", c36::run),
+    ])
 }
